@@ -59,6 +59,7 @@ type Compiler struct {
 	loopIndex       int
 	trace           io.Writer
 	indent          int
+	verif           verifCompiler
 }
 
 // NewCompiler creates a Compiler.
@@ -1192,6 +1193,11 @@ func (c *Compiler) optimizeFunc(node parser.Node) {
 	// any instructions between RETURN and the function end
 	// or instructions between RETURN and jump target position
 	// are considered as unreachable.
+
+	if verifOn && c.verifNoDCE() {
+		c.emit(node, parser.OpReturn, 0)
+		return
+	}
 
 	// pass 1. identify all jump destinations
 	dsts := make(map[int]bool)
